@@ -2,6 +2,7 @@ package rules
 
 import (
 	"fmt"
+	"strings"
 	"go/token"
 
 	"golang.org/x/tools/go/ssa"
@@ -185,6 +186,7 @@ func init() {
 
 		// SINGLE-CONSUMER
 		r.Rule("C16/SINGLE-CONSUMER", "Pull has one caller (the consumer loop), which is, or is reached only from, the goroutine spawned in Processor.Start; Start marks the processor running before spawning; Close cancels, closes the ring, then waits for the consumer iff running", 5)
+		initSignalFields(p)
 		start, pclose := p.Func(apPkg, "Processor.Start"), p.Func(apPkg, "Processor.Close")
 		// the consumer is whoever calls Pull; the goroutine is whatever Start spawns (found by
 		// structure, so that inlining or renaming the unexported loop functions changes nothing)
@@ -245,7 +247,9 @@ func init() {
 					if core.IsCallTo(in, core.Abs(rbPkg)+".RingBuffer.Close") {
 						closeCall = in
 					}
-					if u, ok := in.(*ssa.UnOp); ok && u.Op == token.ARROW && core.PathOf(u.X) == core.PathOf(pclose.Params[0])+".done" {
+					// the join: a receive from a completion signal of the processor (a chan struct{} field that
+					// is closed and never sent on), whatever it is called
+					if u, ok := in.(*ssa.UnOp); ok && u.Op == token.ARROW && chanRole(u.X) == "done" && strings.HasPrefix(core.PathOf(u.X), core.PathOf(pclose.Params[0])+".") {
 						recvDone = in
 					}
 				}
@@ -261,8 +265,10 @@ func init() {
 					if !ok {
 						return false
 					}
-					if core.PathOf(iff.Cond) == core.PathOf(pclose.Params[0])+".running" && b == a.Succs[1] {
-						return true // not running: nothing to wait for
+					if ld, ok := iff.Cond.(*ssa.UnOp); ok && b == a.Succs[1] {
+						if fa, ok := ld.X.(*ssa.FieldAddr); ok && runningF != nil && core.SameField(core.FieldOfAddr(fa), runningF) {
+							return true // not running: nothing to wait for
+						}
 					}
 					return false
 				})
